@@ -1340,6 +1340,9 @@ type b03TG struct {
 	rich   bool // options and message literals
 	depth  int
 	budget int
+	// maxDepth bounds the nesting of messages; mostly 3, sometimes up to 12 (path lengths beyond
+	// the initial capacity of the path slice and around every slices.Clone capacity class)
+	maxDepth int
 }
 
 func (g *b03TG) p(format string, a ...any) { fmt.Fprintf(&g.sb, format, a...) }
@@ -1604,6 +1607,17 @@ func (g *b03TG) message(depth int) string {
 	k := g.r.Intn(6)
 	if depth > 2 {
 		k = g.r.Intn(2)
+		if g.maxDepth > 3 {
+			k = g.r.Intn(4)
+		}
+	}
+	if g.maxDepth > 3 && depth+1 < g.maxDepth {
+		// deep mode: a chain of nested messages down to maxDepth, declarations at every level
+		if g.r.Chance(1, 2) {
+			g.field(num, false)
+			num++
+		}
+		g.message(depth + 1)
 	}
 	for i := 0; i < k && g.budget > 0; i++ {
 		g.budget--
@@ -1614,7 +1628,7 @@ func (g *b03TG) message(depth int) string {
 		case 4:
 			g.optionStmts([]string{"deprecated = true", "no_standard_descriptor_accessor = false"}, "m")
 		case 5:
-			if depth < 3 {
+			if depth+1 < g.maxDepth {
 				g.message(depth + 1)
 			}
 		case 6:
@@ -1682,7 +1696,7 @@ func (g *b03TG) message(depth int) string {
 				}
 			}
 		case 12:
-			if g.proto2() && depth < 3 {
+			if g.proto2() && depth+1 < g.maxDepth+1 {
 				// an extendable message and an extend block next to it
 				b := g.name("B")
 				g.p("message %s { extensions 1 to 100; }\n", b)
@@ -1787,9 +1801,13 @@ func (g *b03TG) file() string {
 }
 
 func b03RandomText(r *Rand) string {
-	g := &b03TG{r: r, budget: 12 + r.Intn(20)}
+	g := &b03TG{r: r, budget: 12 + r.Intn(20), maxDepth: 3}
 	g.syn = Pick(r, []int{0, 2, 2, 2, 3, 3, 23})
 	g.rich = r.Chance(1, 2)
+	if r.Chance(1, 6) {
+		g.maxDepth = 5 + r.Intn(8)
+		g.budget += 12
+	}
 	return g.file()
 }
 
@@ -1847,6 +1865,42 @@ var b03Directed = []string{
 	"syntax = \"proto2\"; import \"b03opts.proto\"; option (b03.fo) = { a: 1, s: 'x' \"y\" k: K1 r: [ 1 , 2 ] subs: [ { a : 1 } , { sub < a : 2 > } ] any { [ type.googleapis.com / b03.Opt ] { a : 1 } } [ b03.xa ] : 5 };\noption (b03.fi) = -5; option (b03.fo).sub.sub.a = 0x10; option java_package = \"a\" 'b';",
 }
 
+// b03DeepBody is one of every path-producing construct of a message body: a oneof with a group and an
+// option after the group, a plain group, a map field, a nested enum, an extension range with options,
+// reserved ranges and names, an extendable message and an extend block with a group, a nested message.
+const b03DeepBody = `option deprecated = false;
+oneof o { int32 a = 1; group G = 2 { optional int32 x = 1; optional group GG = 2 { } } option (b03.oi) = 1; string s = 3; group G2 = 7 { optional bool y = 1; } }
+optional group H = 4 [deprecated = true] { optional int32 y = 1; }
+map<string, int32> mp = 5;
+enum E { Z = 0; O = 1 [deprecated = true]; }
+extensions 100 to 199, 300 [(b03.xi) = 1, (b03.xo) = { a: 1 }];
+reserved 50, 60 to 70; reserved "r1", "r2";
+message B { extensions 1 to 10; }
+extend B { optional int32 e = 1; optional group XG = 2 { optional int32 z = 1; } }
+message N { optional int32 n = 1; }
+optional N last = 6 [deprecated = true, (b03.fdi) = 2];
+`
+
+// b03DeepFile is a chain of depth nested messages; the body stands in the innermost one only, or in
+// every message of the chain. Location paths in a message at depth d have 2d elements, so the family
+// d = 1..12 crosses the initial capacity of the path slice (16) and every capacity class of
+// slices.Clone — slice-aliasing defects of the walk show at particular path lengths only.
+func b03DeepFile(depth int, everyLevel bool) string {
+	var sb strings.Builder
+	sb.WriteString("syntax = \"proto2\";\nimport \"b03opts.proto\";\n")
+	for d := 1; d <= depth; d++ {
+		fmt.Fprintf(&sb, "message D%d {\n", d)
+		if everyLevel && d < depth {
+			sb.WriteString(b03DeepBody)
+		}
+	}
+	sb.WriteString(b03DeepBody)
+	for d := 1; d <= depth; d++ {
+		sb.WriteString("}\n")
+	}
+	return sb.String()
+}
+
 // b03Profiles: trivia profiles from none to dense.
 func b03Profiles(r *Rand) []*b03Trivia {
 	return []*b03Trivia{
@@ -1857,6 +1911,17 @@ func b03Profiles(r *Rand) []*b03Trivia {
 		{r: r, pComment: 80, pNewline: 20},
 		{r: r, pComment: 25, pNewline: 30, crlf: true, exotic: true},
 	}
+}
+
+// b03RandomSource renders a random file; very large renderings (the Lean model works on lists and
+// is quadratic in the file size) are re-rendered with sparse trivia.
+func b03RandomSource(r *Rand, profs []*b03Trivia) []byte {
+	toks := b03Tokenize(b03RandomText(r))
+	src := b03Render(toks, Pick(r, profs))
+	if len(src) > 8000 {
+		src = b03Render(toks, &b03Trivia{r: r, pComment: 3, pNewline: 20})
+	}
+	return src
 }
 
 func b03SrcinfoCase(src []byte) []string {
@@ -1903,13 +1968,29 @@ func (e *srcinfoEngine) Gen(r *Rand, tier string) [][]string {
 			rejected++
 		}
 	}
+	// every construct at every nesting depth 1..12 (path lengths 2..24), plain and with comments
+	for depth := 1; depth <= 12; depth++ {
+		txt := b03DeepFile(depth, false)
+		if !add([]byte(txt)) {
+			rejected++
+		}
+		if depth%3 == 1 || tier == "thorough" {
+			if !add(b03Render(b03Tokenize(txt), profs[3])) {
+				rejected++
+			}
+		}
+	}
+	for _, depth := range []int{6, 11} {
+		if !add([]byte(b03DeepFile(depth, true))) {
+			rejected++
+		}
+	}
 	n := 60
 	if tier == "thorough" {
 		n = 2500
 	}
 	for i := 0; i < n; i++ {
-		toks := b03Tokenize(b03RandomText(r))
-		if !add(b03Render(toks, Pick(r, profs))) {
+		if !add(b03RandomSource(r, profs)) {
 			rejected++
 		}
 	}
@@ -2088,7 +2169,7 @@ func (e *commentsEngine) Gen(r *Rand, tier string) [][]string {
 		n = 3000
 	}
 	for i := 0; i < n; i++ {
-		addPairs(b03Render(b03Tokenize(b03RandomText(r)), Pick(r, profs[2:])))
+		addPairs(b03RandomSource(r, profs[2:]))
 	}
 	return cases
 }
